@@ -221,6 +221,11 @@ struct Interp {
 			Model m2 = m;
 			auto& t = ctx.desc;
 			auto tag = [&](char const* name) { t << " ." << name; };
+			if(Based && null_root && !known_mode()) {
+				// a re-based array with zero elements reports the extension [0,0) while its hidden layout offset is non-zero: every slicing
+				// operation trips the null-pointer-offset assertion (same family as the recorded C01 finding); only shape operations are applied
+				switch(code) { case OP_ROTATED: case OP_UNROTATED: case OP_TRANSPOSED: case OP_TILDE: case OP_REVERSED: case OP_PAREN0: break; default: ctx.count("ops_skipped_based_null_root"); continue; }
+			}
 			switch(code) {
 			case OP_INDEX: if constexpr(D >= 2) { if(d0.size >= 1) {
 				long o = (null_root && !known_mode()) ? 0 : a % d0.size;
@@ -318,7 +323,8 @@ struct Interp {
 				apply<(D == 1) || VP_CONST_REVERSED>(v, cat, m2, "reversed", [&](auto&& x) -> decltype(auto) { return std::forward<decltype(x)>(x).reversed(); }); return;
 			} else { ctx.count("ops_excluded_const_overload"); } break;
 			case OP_DIAGONAL: if constexpr(D >= 2) {
-				if(Based && (m.d[0].first != 0 || m.d[1].first != 0)) { break; }
+				if(Based && (m.d[0].first != 0 || m.d[1].first != 0)) { ctx.count("ops_skipped_diagonal_based"); break; }  // diagonal() slices with literal {0,n}: zero-based views only
+				if(Based && null_root && !known_mode()) { break; }  // (internally slices a null-based view whose hidden offset is non-zero)
 				Dim const d1 = m.d[1];
 				m2.d.erase(m2.d.begin());
 				m2.d[0] = Dim{d1.first, std::min(d0.size, d1.size), d0.stride + d1.stride};
